@@ -325,6 +325,21 @@ def literal_rule(repo: Repo, rep: Report, rid: str) -> None:
               "the literal is formatted with !r", "the constant template no longer formats the value with !r", gs.loc())
 
 
+def typedef_order_rule(repo: Repo, rep: Report, rid: str) -> None:
+    rep.rule(rid, "the typedef table keeps the order of first definition (cstruct.add_type folded): the stub declares a class at the first name that "
+                  "reaches it and aliases every later name to it - a name that moves to the end when it is registered again (a tag used in a later "
+                  "typedef, replace=True) is met after its own alias, so the stub aliases the tag to itself and never declares the alias")
+    from ..folds import fold_add_type
+
+    fi = repo.func("cstruct.py", "cstruct.add_type")
+    fold = fold_add_type(repo)
+    if fold is None:
+        rep.ok(rid, f"{fi.key}:order", "not foldable with the evaluator's whitelist", fi.loc(), nontrivial=False)
+        return
+    bad = [b for b in fold["bad"] if "order" in str(b[1])]
+    rep.check(not bad, rid, f"{fi.key}:order", f"{fold['cases']} registrations keep the table order", f"add_type with '{bad[0][0] if bad else ''}': {bad[0][1] if bad else ''}", fi.loc())
+
+
 def fresh_generation_rule(repo: Repo, rep: Report, rid: str) -> None:
     rep.rule(rid, "stubs are generated from the definitions as they are now: no generator in tools/stubgen.py is memoised (structures are mutable - add_field / "
                   "commit change the class in place, so a cache keyed by the class would return the text of an earlier definition)")
@@ -597,3 +612,8 @@ def run(repo: Repo, rep: Report, tier: str) -> None:
     from .c13 import parser_fold_rule
 
     parser_fold_rule(repo, rep, "C20.R17")
+    from .c18 import commit_rule
+
+    # the stub is generated from the name-keyed field table, which only a commit refreshes: every change of the field list is committed on every path
+    commit_rule(repo, rep, "C20.R18")
+    typedef_order_rule(repo, rep, "C20.R19")
